@@ -6,6 +6,7 @@ pub mod ops;
 pub mod fingerprint;
 pub mod e1;
 pub mod e1run;
+pub mod e3;
 pub mod report;
 pub mod checks;
 
